@@ -153,6 +153,24 @@ CHECKS["C09"] = dict(
          "(immediate service, nil at a 0.1-0.3 s timeout); wake-up by a producer and exactly-one-popper are concurrency properties checked elsewhere.",
 )
 
+CHECKS["C12"] = dict(
+    category="proof", design_ref="DESIGN.md §6 C12", engine="exec",
+    technique="Lean 4 theorems on the executable AVL-tree model (invariant over all programs, member/score algebra, range window, rank) + differential "
+              "correspondence on generated programs comparing replies and the tree itself node for node",
+    text="The tree of memdb/btree.go (insert with the four rotation cases, deleteNode, rebalance; nodes hold score + name set + stored height) "
+         "and ZADD/ZREM/ZRANGE/ZRANK are modelled in Lean (Ds/ZTree.lean, Exec/ZSet.lean). Kernel-checked: every keyspace reachable by any "
+         "program over these commands holds only non-empty sorted sets that are height-balanced search trees with exact stored heights and one "
+         "node per member name (C12_invariant_every_state, also for the trees inside a multi-pair ZADD); ZADD re-scores exactly one member, ZREM "
+         "removes exactly the listed ones and counts them; ZRANGE is the Redis index window of the strictly (score, name)-ordered sequence with REV "
+         "and WITHSCORES; ZRANK is the index in that sequence; NX/XX/GT/LT/INCR one-step laws. Tied to the Go code by running generated programs "
+         "(ties, negatives, signed zero, infinities, extreme floats, invalid floats, every option combination, deep trees built in "
+         "ascending/descending/zig-zag/random order and taken apart member by member) and comparing every reply and, after every command, the dump "
+         "of the real tree (shape, scores, stored heights, names, len, dict) with the model's tree.",
+    note="Trusted: Lean kernel (propext, Classical.choice, Quot.sound), harness/driver/dump hook, IEEE addition for INCR (C double vs float64), "
+         "strconv.ParseFloat for score arguments and for reading scores back from replies (scores compared by value, not by text). Error replies "
+         "compared by class. Signed zero stored as +0. BYSCORE/BYLEX/LIMIT forms of ZRANGE not modelled.",
+)
+
 NOT_YET = "check not built yet in this round; see DESIGN.md §8"
 NOT_APPLICABLE = {}
 
